@@ -262,6 +262,6 @@ public:
   }
 };
 BQHarness h;
-struct Reg { Reg() { register_harness(&h); } } reg;
+struct Reg { Reg() { register_harness(&h); xsim::fn_probe("nikolaev_scq: catchup executed", "7catchup"); xsim::fn_pair_probe("bounded queues: try_push overlaps try_pop", "8try_push", "7try_pop"); xsim::fn_pair_probe("bounded queues: two try_pop overlap", "7try_pop", "7try_pop"); } } reg;
 } // namespace
 XSIM_MAIN()
